@@ -681,9 +681,16 @@ def _drive_and_judge(case, ctx, srv, tymist, conn, reqs, calls):
         if conn.eof:
             j = k - 1
             if j >= 0 and resps[j].framing == "eof":
-                # closing was the only way to delimit response j: accepted (statement clauses conflict), counted
-                ctx.count("closed_to_delimit_unframed_response")
-                ctx.sample({"case_kind": "closed-to-delimit", "info": info})
+                if reqs[j]["ver"] == "1.0":
+                    # an HTTP/1.0 client cannot be sent chunked coding: with no Content-Length from the app, closing is
+                    # the only way to delimit response j: accepted (the statement's clauses conflict here), counted
+                    ctx.count("closed_to_delimit_unframed_response")
+                    ctx.sample({"case_kind": "closed-to-delimit", "info": info})
+                    return
+                # HTTP/1.1: the server can chunk, so the request was persistent and must not cost the connection
+                viol("closed-after-persistent:unframed-response-to-" + kind_of(reqs[j]),
+                     f"response #{j} to a persistent {kind_of(reqs[j])} request was sent with neither Content-Length nor "
+                     f"chunked coding and the server closed to delimit it; request #{k} was never answered")
                 return
             viol("closed-without-response:unanswered-request-" + ("persistent" if persistent(reqs[k]) else "nonpersistent"),
                  f"EOF after {k} complete response(s) but {exp_n} were due: request #{k} ({kind_of(reqs[k])}, "
@@ -701,8 +708,12 @@ def _drive_and_judge(case, ctx, srv, tymist, conn, reqs, calls):
     else:
         ctx.count("stays_open_checks")
         if conn.eof:
-            if resps[-1].framing == "eof":
+            if resps[-1].framing == "eof" and reqs[exp_n - 1]["ver"] == "1.0":
                 ctx.count("closed_to_delimit_unframed_response")
+            elif resps[-1].framing == "eof":
+                viol("closed-after-persistent:unframed-response-to-" + kind_of(reqs[exp_n - 1]),
+                     f"request #{exp_n - 1} was persistent ({kind_of(reqs[exp_n - 1])}); its response had neither "
+                     f"Content-Length nor chunked coding and the server closed to delimit it")
             else:
                 viol("closed-after-persistent:" + kind_of(reqs[exp_n - 1]),
                      f"request #{exp_n - 1} was persistent and its response was self-delimiting ({resps[-1].framing}) but the server closed")
